@@ -342,3 +342,27 @@ def strip_payload(r):
             return ev(("A", s[1], None))
         return ev(s)
     return subst(r, f)
+
+
+def find_word(r, init, step, bad_at_end, limit=200000):
+    """shortest word of L(r) that drives the monitor (init, step(state, sym) -> state) into a state with
+    bad_at_end(state) true when the word ends; None if there is none"""
+    n = to_nfa(r)
+    start = [(s, init) for s in _closure(n, {n.start})]
+    seen = set(start)
+    q = deque([(s, m, ()) for (s, m) in start])
+    count = 0
+    while q:
+        s, m, w = q.popleft()
+        count += 1
+        if count > limit:
+            return None
+        if s == n.final and bad_at_end(m):
+            return list(w)
+        for (y, t) in n.tr[s]:
+            m2 = step(m, y)
+            for t2 in _closure(n, {t}):
+                if (t2, m2) not in seen:
+                    seen.add((t2, m2))
+                    q.append((t2, m2, w + (y,)))
+    return None
